@@ -15,8 +15,9 @@ Line protocol of property C20.
   `b` is the MODEL's byte string; `rows/row/vis` are the SPEC's answer (latest text per line that is
   still on the screen, cursor parked below the last line, visible) whenever the history satisfies the
   hypotheses of `screen_refines_latest` / `close_parks_cursor` (texts in the class `TextSafe` for the
-  cell-width table `eaWidth`, every update reachable), and otherwise the reference terminal `Scr`
-  run on the model's bytes.
+  cell-width table `eaWidth`, every update reachable); with `Close()` calls in the middle, the answer of
+  `writes_after_close_scr` (the latest text per PHYSICAL line: every update after `d` Closes `d` rows lower) when its
+  hypotheses hold; and otherwise the reference terminal `Scr` run on the model's bytes.
 * `termspec <width> <height> <row0> <trim> <history>` – what the PROPERTY promises for that history on a screen
   of `height` rows, whether or not every update is `Reachable`: `ok rows=<latest text of the lines still in the
   window> row=<below the last line> vis=1` (`unmodelled` when a text is outside `TextSafe`).  The implementation
@@ -110,7 +111,29 @@ def termAnswer (width : Int) (H? : Option Nat) (r0 : Nat) (trim clear hide : Boo
   let H := H?.getD (ml + 3)
   let t := ({ Scr.blank width.toNat H false eaWidth with row := r0 }).feedBytes bytes
   let machine := s!"rows={rowsOut t H} row={t.row} vis={b01 t.cursorVisible}"
-  if hypsHold width H r0 trim clear h then
+  -- `Close()` calls in the middle: the hypotheses of `writes_after_close_scr`, and the THEOREM's screen (the
+  -- property's promise for the history in physical lines: every update after `d` Closes `d` rows lower)
+  let closeSpec : Option String :=
+    if hasClose h && clear && hide && decide (1 ≤ width) && decide (r0 < H) then
+      match updsOf h with
+      | some us =>
+        if (ws.all fun (_, t) => textHyp width trim true t) && reachUpdB H r0 0 0 us then
+          let phys := physHist 0 us
+          let M := physMax 0 0 us
+          let sf := r0 + M + 1 - (H - 1)
+          let specRows := (List.range H).map fun (j : Nat) =>
+            if j + sf < r0 then [] else
+            match latest phys (j + sf - r0 : Nat) with
+            | some txt => encodeUtf8 (shown width.toNat trim txt)
+            | none => []
+          some s!"rows={hexList specRows} row={r0 + M + 1 - sf} vis=1"
+        else none
+      | none => none
+    else none
+  if let some spec := closeSpec then
+    if spec = machine then s!"ok b={Hex.enc bytes} {spec}"
+    else s!"ok b={Hex.enc bytes} {spec} MODEL-ON-MACHINE-DIFFERS {machine}"
+  else if hypsHold width H r0 trim clear h then
     let sf := r0 + ml + 1 - (H - 1)
     let specRows := (List.range H).map fun (j : Nat) =>
       if j + sf < r0 then [] else
